@@ -51,10 +51,20 @@ pub fn check_svm_bool(c: &Case, obs: &mut Obs) {
 }
 
 pub fn check_svm_pr(c: &Case, obs: &mut Obs) {
+    svm_pr(c, obs, false)
+}
+
+/// linear kernel, query rows scaled by 1e3 .. 1e6 (and a few by 1e30) in both directions: the decision
+/// value, hence A*f+B of the built-in Platt calibration, saturates both ways
+pub fn check_svm_pr_extreme(c: &Case, obs: &mut Obs) {
+    svm_pr(c, obs, true)
+}
+
+fn svm_pr(c: &Case, obs: &mut Obs, extreme: bool) {
     if !usable(c, obs) {
         return;
     }
-    let gaussian = c.opt(0, 2) == 1;
+    let gaussian = c.opt(0, 2) == 1 && !extreme;
     kernel_class(obs, gaussian);
     let ds = Dataset::new(case::train_x(c), case::bool_labels(c));
     let mut params = Svm::<f64, Pr>::params().eps(1e-5).pos_neg_weights(1.0, 1.0);
@@ -66,7 +76,22 @@ pub fn check_svm_pr(c: &Case, obs: &mut Obs) {
     }
     let spec = Spec::strict(false);
     let pred = any_layout::<_, Array1<Pr>>(&model);
-    if let Some(info) = driver::run(obs, c, &pred, &spec) {
+    let query = if extreme {
+        let mut q = case::query(c);
+        for (r, &(kind, i)) in q.rows.iter_mut().zip(&c.picks) {
+            let scale = [1e3, 1e4, 1e5, 1e6, 1e30][vengine::gen::idx(i, 5)];
+            let scale = if kind % 2 == 0 { scale } else { -scale };
+            for v in r.iter_mut() {
+                *v *= scale;
+            }
+        }
+        q
+    } else {
+        case::query(c)
+    };
+    if let Some(info) = driver::run_rows(obs, c, &pred, &spec, query) {
+        obs.class_if(info.single.iter().any(|r| r[0] == 0.0), "svm_pr_saturated_at_0");
+        obs.class_if(info.single.iter().any(|r| r[0] == 1.0), "svm_pr_saturated_at_1");
         // probability in [0,1], monotone (one direction for the whole batch) in the decision value
         let dec: Vec<f64> = info.rows.iter().map(|x| model.weighted_sum(&ArrayView1::from(&x[..])) - model.rho).collect();
         let pr: Vec<f64> = info.single.iter().map(|r| r[0]).collect();
